@@ -168,7 +168,9 @@ def register(w):
         for oname, wn, bound in (("call_sites_whose_symbolic_input_shapes_correlate_differently_get_their_own_definition", "C04_function_symbol_binding_family",
                                   "2 @onnx_function targets x 3 orders of two call sites with inputs [('T',3),('S',3)], 5 bindings of (T,S)"),
                                  ("call_sites_differing_in_a_keyword_argument_get_their_own_definition", "C19_function_target_kwargs_family",
-                                  "19 call forms of 3 functions and 1 module, incl. f(x, k=None) next to f(x) in one program")):
+                                  "19 call forms of 3 functions and 1 module, incl. f(x, k=None) next to f(x) in one program"),
+                                 ("unique_instances_are_compared_by_their_content_at_every_export_of_a_process", "C07_unique_history_family",
+                                  "one nnx model with two unique=True instances exported 4 times in one process with in-place updates of weights / static attributes in between, and once freshly built")):
             holds, detail = run_witness(wn, timeout=1200)
             d = {"oid": f"{MPS}:FunctionPlugin._lower_and_call#bounded:{oname}", "kind": "bounded", "status": "discharged" if holds else ("refuted" if holds is False else "unknown"),
                  "backend": "enumerated", "time": time.time() - t0, "instances": 1, "trivial": 0, "bounded": bound,
@@ -178,4 +180,4 @@ def register(w):
             out["obls"].append(d)
         out["paths"], out["time"] = 1, time.time() - t0
         return out
-    w.add_contract(Contract(f"{MPS}:<bounded-sharing>", kind="custom", custom=bounded_sharing, props=["C07"], witnesses=["C04_function_symbol_binding_family", "C19_function_target_kwargs_family"]))
+    w.add_contract(Contract(f"{MPS}:<bounded-sharing>", kind="custom", custom=bounded_sharing, props=["C07"], witnesses=["C04_function_symbol_binding_family", "C19_function_target_kwargs_family", "C07_unique_history_family"]))
